@@ -507,7 +507,14 @@ func popShapeRule(c *Ctx) {
 	}
 	same := func(a, b ssa.Value) bool {
 		a, b = stripConv(a), stripConv(b)
-		return a == b
+		if a == b {
+			return true
+		}
+		// sifting "*h" after the store sifts what was stored
+		if u, ok := b.(*ssa.UnOp); ok && u.X == ssa.Value(hp) {
+			return true
+		}
+		return false
 	}
 	for _, s := range stored {
 		for _, d := range sifted {
